@@ -87,6 +87,17 @@ func (r *Runner) RunArgv(argv []string, extraEnv []string) ExecResult {
 			if strings.Contains(sub[i], "@ROOT@") && !strings.HasPrefix(sub[i], "inject=") {
 				sub[i] = strings.ReplaceAll(sub[i], "@ROOT@", r.Root)
 			}
+			if strings.Contains(sub[i], "@HEADID@") {
+				// the id of the current commit (ids differ from run to run: they embed the time of the commit)
+				id := "@HEADID@"
+				if hb, err := os.ReadFile(filepath.Join(r.Root, ".goit", "HEAD")); err == nil {
+					ref := strings.TrimSpace(strings.TrimPrefix(string(hb), "ref: "))
+					if bb, err := os.ReadFile(filepath.Join(r.Root, ".goit", ref)); err == nil && len(strings.TrimSpace(string(bb))) == 40 {
+						id = strings.TrimSpace(string(bb))
+					}
+				}
+				sub[i] = strings.ReplaceAll(sub[i], "@HEADID@", id)
+			}
 		}
 		argv = sub
 	}
@@ -272,6 +283,20 @@ func (r *Runner) ApplyEnv(ev M, contents map[string][]byte) (bool, error) {
 		return true, os.RemoveAll(r.wtPath(ev["p"].(string)))
 	case "mkdir":
 		return true, os.MkdirAll(r.wtPath(ev["p"].(string)), 0o777)
+	case "homelink":
+		// the global configuration file is kept elsewhere (a dotfiles directory) and ~/.goitconfig is a symbolic link to it
+		src := filepath.Join(r.Home, ".goitconfig")
+		dst := filepath.Join(r.Home, "dotfiles", "goitconfig")
+		if fi, err := os.Lstat(src); err == nil && fi.Mode().IsRegular() {
+			if err := os.MkdirAll(filepath.Dir(dst), 0o777); err != nil {
+				return true, err
+			}
+			if err := os.Rename(src, dst); err != nil {
+				return true, err
+			}
+			return true, os.Symlink(filepath.Join("dotfiles", "goitconfig"), src)
+		}
+		return true, nil
 	case "symlink":
 		// ln -s: a relative symbolic link at <p> whose target is the working-tree file <to>
 		p, to := r.wtPath(ev["p"].(string)), r.wtPath(ev["to"].(string))
